@@ -70,7 +70,7 @@ struct Config {
   uint64_t tail_budget_min = 100000;  // quiet tail budget = max(this, tail_factor * steps used)
   int tail_factor = 20;
   // scheduling policy (search mode)
-  int64_t dilation_cap_ns = 8000000000LL;   // most extra simulated time one uninterrupted (never blocking) run of a task can be charged (sim/core.cpp, time dilation)
+  int64_t dilation_cap_ns = 0;             /* 0 = per-task dilation off (the default since the sleeper boost exists: it covers every case in which somebody waits for time, and it cannot mistake a long legitimate computation for a busy-wait) */ //   // most extra simulated time one uninterrupted (never blocking) run of a task can be charged (sim/core.cpp, time dilation)
   int64_t sleeper_patience = 40000;        // steps of other tasks' execution after which the clock is advanced to the deadline of a task that is still blocked with one (0 = never)
   int freeze_pct = 0;        // search mode: probability (percent) that a pre-empted task is kept away from the processor for 32..4096 further steps
   int mem_switch_log2 = 6;   // P(preempt at plain memory access) = 2^-k ; 0xff = never
